@@ -93,10 +93,11 @@ type Types struct {
 	tagTypes map[int64]types.Type
 	strs     map[string]Term
 	boxes    map[string]bool
+	opaque   map[string]bool
 }
 
 func newTypes(s *Script) *Types {
-	return &Types{s: s, structs: map[string]*types.Struct{}, tags: map[string]int64{}, tagTypes: map[int64]types.Type{}, strs: map[string]Term{}, boxes: map[string]bool{}}
+	return &Types{s: s, structs: map[string]*types.Struct{}, tags: map[string]int64{}, tagTypes: map[int64]types.Type{}, strs: map[string]Term{}, boxes: map[string]bool{}, opaque: map[string]bool{}}
 }
 
 type unsupported struct{ msg string }
@@ -208,15 +209,30 @@ func (ty *Types) structSort(t types.Type, st *types.Struct) Sort {
 		return name
 	}
 	ty.structs[key] = st
-	if !inModule(t) || st.NumFields() == 0 {
+	opaque := st.NumFields() == 0 || strings.HasPrefix(key, "sync.") || strings.HasPrefix(key, "sync_atomic")
+	var fs []string
+	if !opaque {
+		func() {
+			defer func() {
+				if r := recover(); r != nil {
+					if _, ok := r.(unsupported); ok {
+						opaque = true
+						return
+					}
+					panic(r)
+				}
+			}()
+			for i := 0; i < st.NumFields(); i++ {
+				f := st.Field(i)
+				fs = append(fs, fmt.Sprintf("(%s %s)", ty.selName(name, f.Name()), ty.sortOf(f.Type())))
+			}
+		}()
+	}
+	if opaque {
+		ty.opaque[key] = true
 		ty.s.declareRaw("sort:"+string(name), fmt.Sprintf("(declare-sort %s 0)", name))
 		ty.s.declConst("zero_"+string(name), name)
 		return name
-	}
-	var fs []string
-	for i := 0; i < st.NumFields(); i++ {
-		f := st.Field(i)
-		fs = append(fs, fmt.Sprintf("(%s %s)", ty.selName(name, f.Name()), ty.sortOf(f.Type())))
 	}
 	ty.s.declareRaw("sort:"+string(name), fmt.Sprintf("(declare-datatypes ((%s 0)) (((mk_%s %s))))", name, name, strings.Join(fs, " ")))
 	return name
@@ -227,7 +243,8 @@ func (ty *Types) isOpaqueStruct(t types.Type) bool {
 	if !ok {
 		return false
 	}
-	return !inModule(t) || st.NumFields() == 0
+	ty.structSort(t, st)
+	return ty.opaque[typeKey(t)]
 }
 
 func (ty *Types) selName(structSort Sort, field string) string {
@@ -269,7 +286,7 @@ func (ty *Types) zero(t types.Type) Term {
 		}
 		return sx("mk_"+string(srt), fs...)
 	case *types.Array:
-		return fmt.Sprintf("((as const %s) %s)", ty.sortOf(t), ty.zero(u.Elem()))
+		return ty.constArray(SInt, ty.sortOf(u.Elem()), ty.zero(u.Elem()))
 	}
 	unsupp("zero of %s", t)
 	return ""
@@ -410,4 +427,21 @@ func (ty *Types) fromIfc(t types.Type, i Term) Term {
 		return sx("ifc_pay", i)
 	}
 	return ty.unbox(t, sx("ifc_pay", i))
+}
+
+// constArray: an array that is `zero` everywhere. cvc5 only accepts literal
+// values under (as const ...), so other element sorts get a named array with
+// a pointwise axiom.
+func (ty *Types) constArray(idx, elem Sort, zero Term) Term {
+	srt := arrSort(idx, elem)
+	literal := elem == SInt || elem == SBool
+	if literal {
+		return fmt.Sprintf("((as const %s) %s)", srt, zero)
+	}
+	name := "carr$" + mangle(string(srt))
+	if !ty.s.declared["c:"+name] {
+		ty.s.declConst(name, srt)
+		ty.s.assumeGlobal(fmt.Sprintf("(forall ((i %s)) (! (= (select %s i) %s) :pattern ((select %s i))))", idx, name, zero, name))
+	}
+	return name
 }
